@@ -239,7 +239,7 @@ agents that were given the property text and a worktree and nothing else): 200 c
 `tools/seedregress.sh` re-runs recorded seeds against the current checks (`seeded/<id>/check.json`; a full run
 takes about five hours, so the later rounds carry the verdict of the run that closed them): all are caught except
 C12-m2, which no longer breaks the property since a later repair of /repo and is rightly not reported. The first
-version of the checks missed 6 of the first 40, 19 of the second 40, 14 of the third 40, 21 of the fourth 40 and 6 of
+version of the checks missed 6 of the first 40, 19 of the second 40, 14 of the third 40, 21 of the fourth 40 and 7 of
 the fifth 40 (later agents dig where earlier ones had not); every miss led to a stronger generator or oracle (marked
 *strengthened* / "closed by"), never to a special case for the seed, and several of those strengthenings - and
 the agents' side remarks - exposed genuine defects of the unchanged code (D50..D55, D58..D64, D67, D69, D70). Seeds reported
@@ -268,10 +268,10 @@ def section9():
                "C15-m6, C19-m6, C20-m5, C20-m6 (what closed each is in its row).\n")
     out.append("\n*Round 4, missed at first:* C01-m7, C01-m8, C02-m7, C02-m8, C03-m8, C04-m8, C05-m8, C08-m7, C08-m8, C09-m8, C10-m7, "
                "C12-m7, C13-m7, C14-m7, C15-m7, C15-m8, C17-m7, C17-m8, C19-m7, C19-m8, C20-m8 (what closed each is in its row).\n")
-    out.append("\n*Round 5 (property text only), missed at first:* C02-m9 (position-adjusted key of an archive behind a prefix), "
+    out.append("\n*Round 5 (property text only), missed at first:* C01-m9 (two added names that are one name to the archive; the first run "
+               "flagged it only through a false alarm of the machinery, the regression run showed the miss), C02-m9 (position-adjusted key of an archive behind a prefix), "
                "C05-m10 (two related locator fields hostile at once), C07-m9 (names differing in non-ASCII case), C09-m9 (members the "
-               "listfile does not name), C18-m9 (file-id tables of more than eight sections); one seed check (C01-m9) reported a false "
-               "alarm of the machinery itself, see section 8 (what closed each is in its row).\n")
+               "listfile does not name), C18-m9 (file-id tables of more than eight sections); the false alarm is described in section 8 (what closed each is in its row).\n")
     out.append("\n*Strengthened after a miss:* C01-m1 (store-raw boundary units added to the generator), C07-m1 (sources with "
                "external / partial listfiles), C08-m2 (digest-field cases), C12-m2 (dirty compaction variant), C20-m2 (BLP "
                "sub-commands), C11 (separate edge archive). C19-m2 is a lock-order inversion whose demonstration is "
